@@ -197,6 +197,10 @@ def _filled(I, e, args, kws, unit, sign, zero=False):
         out.tags["zero_init"] = True
     if out.shape is not None:
         out.tags["ndim"] = len(out.shape.axes)
+    dt = kws.get("dtype") or (args[1] if len(args) > 1 else None)
+    if dt is not None and dt.tag("dtype_of") and not dt.known:
+        # np.zeros(shape, dtype=B.dtype): the element type is inherited from another array
+        out.tags["dtype_from"] = frozenset(dt.flat().data | dt.flat().shp)
     return out
 
 
@@ -226,6 +230,8 @@ def m_like(I, e, args, kws):
     if "dtype" not in kws:
         # the element type is inherited from the prototype array
         out.tags["dtype_from"] = frozenset(x.flat().data)
+    elif kws["dtype"].tag("dtype_of") and not kws["dtype"].known:
+        out.tags["dtype_from"] = frozenset(kws["dtype"].flat().data | kws["dtype"].flat().shp)
     return out
 
 
@@ -320,7 +326,9 @@ def m_copy(I, e, args, kws):
 @model("numpy.astype")
 def m_astype(I, e, args, kws):
     x = args[0]
-    out = x.copy(term=mk_term("astype", x.term), fresh="FRESH")
+    cp_ = kws.get("copy")
+    aliasing = cp_ is not None and cp_.known and cp_.const is False      # astype(..., copy=False) returns the SAME array when the dtype matches
+    out = x.copy(term=mk_term("astype", x.term), fresh=(x.fresh if aliasing else "FRESH"))
     out.items = None
     dt = args[1] if len(args) > 1 else kws.get("dtype")
     _dtype_cast(I, e, out, x, dt, computed=bool(x.tag("floating")))
@@ -905,6 +913,8 @@ def m_einsum(I, e, args, kws):
     for o in ops:
         u = umul(u, o.unit, 1)
     out.unit = u
+    if any(o.tag("floating") or o.tag("simplex_rows") or o.tag("unit_cube") for o in ops):
+        out.tags["floating"] = True           # weights in [0, 1] / quotients: a real-valued result whatever the dtype of the other operand
     if spec.known and isinstance(spec.const, str) and "->" in spec.const:
         lhs, rhs = spec.const.replace(" ", "").split("->")
         ins = lhs.split(",")
@@ -1055,6 +1065,9 @@ def m_repeat(I, e, args, kws):
             and "axis" not in kws:
         out.shape = Shape([dim_mul(rd, x.shape.axes[0])])
         out.tags["stack_kind"] = "element-major" if name == "repeat" else "sample-major"
+    if isinstance(x.fresh, tuple) and x.fresh[1] and x.tag("kind") == "ndarray":
+        out.tags["dtype_from"] = frozenset(x.fresh[1])      # np.tile / np.repeat of a caller array keep its element type
+        out.tags["dtype_copy"] = True
     I.emit("np_repeat", e, name=name, src=x, reps=args[1] if len(args) > 1 else None)
     return out
 
@@ -1371,7 +1384,7 @@ def m_qhull(I, e, args, kws):
     name = M.norm_text(e.func).split(".")[-1]
     kind = "delaunay" if "Delaunay" in name else "hull"
     out = mk(args + list(kws.values()), tags={"kind": kind, "points": pts, "isinstance": name})
-    I.emit("qhull", e, cls=name, points=pts)
+    I.emit("qhull", e, cls=name, points=pts, kws=kws, args=args)
     return out
 
 
